@@ -224,7 +224,8 @@ Section Machine.
   Lemma step_uid_sig : forall st name self others s,
     step c P primary pid st (MUid name self others) (PSig s) =
       if is_self_cert pid (s_core s)
-      then bind (verify_uid_sig c P primary name (s_core s)) (fun _ => Ok (Cont st (MUid name (Some (s_core s)) others)))
+      then bind (verify_uid_sig c P primary name (s_core s))
+             (fun _ => Ok (Cont st (MUid name (if should_replace_self c self (s_core s) then Some (s_core s) else self) others)))
       else Ok (Cont st (MUid name self (others ++ [s_core s]))).
   Proof. reflexivity. Qed.
 
@@ -251,7 +252,11 @@ Section Machine.
         * apply bind_ok' in H. destruct H as [u [Ev H]]. destruct u. inversion H; subst n.
           split; [now apply st_inv_mono|].
           exists pre, (sigs ++ [s]). rewrite E. split; [apply snoc_sig|].
-          exists sigs, s, []. repeat split; auto.
+          destruct (should_replace_self c self (s_core s)).
+          { exists sigs, s, []. repeat split; auto. }
+          destruct self as [sc|]; auto.
+          destruct Hs as (s1 & s0 & s2 & Es & R). exists s1, s0, (s2 ++ [s]). split; auto.
+          rewrite Es. rewrite <- app_assoc. reflexivity.
         * inversion H; subst n. split; [now apply st_inv_mono|].
           exists pre, (sigs ++ [s]). rewrite E. split; [apply snoc_sig|].
           destruct self as [sc|]; auto.
@@ -1753,3 +1758,272 @@ Proof.
   split; [|discriminate]. simpl in D. destruct (bytes_eqb msg ex_msg) eqn:E; [|discriminate].
   apply bytes_eqb_eq in E. exact E.
 Qed.
+
+(* ------------------------------------------------------------------ *)
+(* octets behind the fields of a key packet change nothing             *)
+(* ------------------------------------------------------------------ *)
+Lemma read_n_app : forall n l a r x, read_n n l = Some (a, r) -> read_n n (l ++ x) = Some (a, r ++ x).
+Proof.
+  intros n l a r x H. apply read_n_spec in H. destruct H as [E L]. subst l n.
+  rewrite <- app_assoc. apply read_n_app_exact.
+Qed.
+
+Lemma mpi_read_app : forall l m r x, mpi_read l = Ok (m, r) -> mpi_read (l ++ x) = Ok (m, r ++ x).
+Proof.
+  intros l m r x H. unfold mpi_read in *. destruct l as [|b0 [|b1 r0]]; try discriminate.
+  change ((b0 :: b1 :: r0) ++ x) with (b0 :: b1 :: (r0 ++ x)). cbv beta iota.
+  destruct (read_n ((b0 * 256 + b1 + 7) / 8) r0) as [[v rest]|] eqn:E; [|discriminate].
+  rewrite (read_n_app _ _ _ _ x E). inversion H; subst. reflexivity.
+Qed.
+
+Lemma parse_oid_app : forall l o r x, parse_oid l = Ok (o, r) -> parse_oid (l ++ x) = Ok (o, r ++ x).
+Proof.
+  intros l o r x H. unfold parse_oid in *. destruct l as [|n r0]; [discriminate|].
+  change ((n :: r0) ++ x) with (n :: (r0 ++ x)). cbv beta iota.
+  destruct (pgp_max_oid_len <? n); [discriminate|].
+  destruct (read_n n r0) as [[o' rest]|] eqn:E; [|discriminate].
+  rewrite (read_n_app _ _ _ _ x E). inversion H; subst. reflexivity.
+Qed.
+
+Lemma parse_kdf_app : forall c l k r x, parse_kdf c l = Ok (k, r) -> parse_kdf c (l ++ x) = Ok (k, r ++ x).
+Proof.
+  intros c l k r x H. unfold parse_kdf in *. destruct l as [|n r0]; [discriminate|].
+  change ((n :: r0) ++ x) with (n :: (r0 ++ x)). cbv beta iota.
+  destruct (n <? 3); [discriminate|].
+  destruct (read_n n r0) as [[b rest]|] eqn:E; [|discriminate].
+  rewrite (read_n_app _ _ _ _ x E).
+  destruct (negb (nth 0 b 0 =? 1)); [discriminate|].
+  destruct (fixkdf c); inversion H; subst; reflexivity.
+Qed.
+
+Ltac app_step x :=
+  let E := fresh "E" in
+  match goal with
+  | H : bind (mpi_read ?l) _ = Ok _ |- _ =>
+      apply bind_ok in H; destruct H as [[? ?] [E H]]; rewrite (mpi_read_app _ _ _ x E); cbn [bind]
+  | H : bind (parse_oid ?l) _ = Ok _ |- _ =>
+      apply bind_ok in H; destruct H as [[? ?] [E H]]; rewrite (parse_oid_app _ _ _ x E); cbn [bind]
+  | H : bind (parse_kdf ?c ?l) _ = Ok _ |- _ =>
+      apply bind_ok in H; destruct H as [[? ?] [E H]]; rewrite (parse_kdf_app _ _ _ _ x E); cbn [bind]
+  end.
+
+Lemma parse_keymat_app : forall c ecok algo l m r x,
+  parse_keymat c ecok algo l = Ok (m, r) -> parse_keymat c ecok algo (l ++ x) = Ok (m, r ++ x).
+Proof.
+  intros c ecok algo l m r x H. unfold parse_keymat in *.
+  destruct ((algo =? 1) || (algo =? 2) || (algo =? 3)).
+  { repeat app_step x.
+    match type of H with (if ?b then _ else _) = _ => destruct b end; [discriminate|]. inversion H; subst. reflexivity. }
+  destruct (algo =? 17). { repeat app_step x. inversion H; subst. reflexivity. }
+  destruct (algo =? 16). { repeat app_step x. inversion H; subst. reflexivity. }
+  destruct (algo =? 19).
+  { repeat app_step x. apply bind_ok in H. destruct H as [u [Eu H]]. rewrite Eu. cbn [bind]. inversion H; subst. reflexivity. }
+  destruct (algo =? 18).
+  { repeat app_step x. apply bind_ok in H. destruct H as [u [Eu H]]. rewrite Eu. cbn [bind]. inversion H; subst. reflexivity. }
+  destruct (algo =? 22).
+  { repeat app_step x. apply bind_ok in H. destruct H as [u [Eu H]]. rewrite Eu. cbn [bind]. inversion H; subst. reflexivity. }
+  discriminate.
+Qed.
+
+Theorem parse_public_key_app : forall c ecok l k r x,
+  parse_public_key c ecok l = Ok (k, r) -> parse_public_key c ecok (l ++ x) = Ok (k, r ++ x).
+Proof.
+  intros c ecok l k r x H. unfold parse_public_key in *.
+  destruct l as [|v [|t0 [|t1 [|t2 [|t3 [|algo r0]]]]]]; try discriminate.
+  change ((v :: t0 :: t1 :: t2 :: t3 :: algo :: r0) ++ x) with (v :: t0 :: t1 :: t2 :: t3 :: algo :: (r0 ++ x)). cbv beta iota.
+  destruct (negb (v =? 4)); [discriminate|].
+  apply bind_ok in H. destruct H as [[m rest] [E H]].
+  rewrite (parse_keymat_app _ _ _ _ _ _ x E). cbn [bind]. inversion H; subst. reflexivity.
+Qed.
+
+(* hence the key that packet.Read returns for a key packet, and with it the fingerprint, key ID and every
+   attribute shown, do not depend on octets behind the key's fields (they are consumed and dropped) *)
+Theorem key_packet_trailing_octets : forall c P tag body x sub k,
+  ((tag =? 6) || (tag =? 14)) = true ->
+  read_packet c P tag body true = RP (PKey sub false k) ->
+  read_packet c P tag (body ++ x) true = RP (PKey sub false k).
+Proof.
+  intros c P tag body x sub k Ht H. unfold read_packet in *.
+  assert (T2 : (tag =? 2) = false).
+  { apply orb_true_iff in Ht. destruct Ht as [E|E]; apply N.eqb_eq in E; subst; reflexivity. }
+  rewrite T2 in *. simpl orb in *. rewrite Ht in *.
+  destruct body as [|v b]; [discriminate|]. change ((v :: b) ++ x) with (v :: (b ++ x)). cbv beta iota.
+  destruct (v <? 4).
+  { destruct (parse_key_v3 (v :: b)); discriminate. }
+  destruct (parse_public_key c (p_ecok P) (v :: b)) as [[k' tail]|e|s] eqn:E.
+  - change (v :: b ++ x) with ((v :: b) ++ x). rewrite (parse_public_key_app _ _ _ _ _ x E). exact H.
+  - exfalso. unfold rd_of_err in H. destruct (String.eqb e miss); [discriminate|]. destruct (String.eqb e eof); discriminate.
+  - discriminate.
+Qed.
+
+(* ------------------------------------------------------------------ *)
+(* which of several self-signatures / binding signatures counts        *)
+(* ------------------------------------------------------------------ *)
+(* the selection loops of addSubkey (shouldReplaceSubkeySig) and addUserID as folds *)
+Definition sel_sub (acc : option sigcore) (l : list sigcore) : option sigcore :=
+  fold_left (fun a s => if should_replace a s then Some s else a) l acc.
+Definition sel_self (c : cfg) (acc : option sigcore) (l : list sigcore) : option sigcore :=
+  fold_left (fun a s => if should_replace_self c a s then Some s else a) l acc.
+
+Definition not_rev (s : sigcore) : Prop := (sc_type s =? pgp_sigtype_subkey_revocation) = false.
+
+(* binding signatures: the maximal creation time, the FIRST among equals *)
+Lemma sel_sub_spec : forall l a s, not_rev a -> Forall not_rev l -> sel_sub (Some a) l = Some s ->
+  (s = a /\ forall x, In x l -> sc_created x <= sc_created a) \/
+  (exists l1 l2, l = l1 ++ s :: l2 /\ sc_created a < sc_created s /\
+     (forall x, In x l1 -> sc_created x < sc_created s) /\ (forall x, In x l2 -> sc_created x <= sc_created s)).
+Proof.
+  induction l as [|x l IH]; intros a s Na Nl H.
+  - simpl in H. inversion H; subst. left. split; auto. intros x [].
+  - inversion Nl as [|? ? Nx Nl']; subst. unfold sel_sub in H. simpl in H. fold (sel_sub) in H.
+    unfold not_rev in Na. rewrite Na in H.
+    destruct (sc_created a <? sc_created x) eqn:E.
+    + apply N.ltb_lt in E. change (sel_sub (Some x) l = Some s) in H.
+      destruct (IH x s Nx Nl' H) as [[Es M]|(l1 & l2 & El & Lt & M1 & M2)].
+      * subst s. right. exists [], l. simpl. repeat split; auto. intros y [].
+      * right. exists (x :: l1), l2. subst l. simpl. repeat split; auto; try lia.
+        intros y [Ey|Hy]; [subst; auto | auto].
+    + apply N.ltb_ge in E. change (sel_sub (Some a) l = Some s) in H.
+      destruct (IH a s Na Nl' H) as [[Es M]|(l1 & l2 & El & Lt & M1 & M2)].
+      * left. split; auto. intros y [Ey|Hy]; [subst; auto | auto].
+      * right. exists (x :: l1), l2. subst l. simpl. repeat split; auto.
+        intros y [Ey|Hy]; [subst; lia | auto].
+Qed.
+
+Theorem sel_sub_latest : forall l s, Forall not_rev l -> sel_sub None l = Some s ->
+  exists l1 l2, l = l1 ++ s :: l2 /\
+    (forall x, In x l1 -> sc_created x < sc_created s) /\ (forall x, In x l2 -> sc_created x <= sc_created s).
+Proof.
+  intros l s Nl H. destruct l as [|x l]; [discriminate|].
+  inversion Nl as [|? ? Nx Nl']; subst. unfold sel_sub in H. simpl in H. change (sel_sub (Some x) l = Some s) in H.
+  destruct (sel_sub_spec l x s Nx Nl' H) as [[Es M]|(l1 & l2 & El & Lt & M1 & M2)].
+  - subst s. exists [], l. simpl. repeat split; auto. intros y [].
+  - exists (x :: l1), l2. subst l. simpl. repeat split; auto. intros y [Ey|Hy]; [subst; auto | auto].
+Qed.
+
+Lemma sel_sub_nonempty : forall l a, exists s, sel_sub (Some a) l = Some s.
+Proof.
+  induction l as [|x l IH]; intros a; [exists a; reflexivity|].
+  unfold sel_sub. cbn [fold_left]. destruct (should_replace (Some a) x); apply IH.
+Qed.
+
+(* self-signatures of an identity (repaired code): the maximal creation time, the LAST among equals *)
+Lemma sel_self_spec : forall l a s, sel_self fixed (Some a) l = Some s ->
+  (s = a /\ forall x, In x l -> sc_created x < sc_created a) \/
+  (exists l1 l2, l = l1 ++ s :: l2 /\ sc_created a <= sc_created s /\
+     (forall x, In x l1 -> sc_created x <= sc_created s) /\ (forall x, In x l2 -> sc_created x < sc_created s)).
+Proof.
+  induction l as [|x l IH]; intros a s H.
+  - simpl in H. inversion H; subst. left. split; auto. intros x [].
+  - unfold sel_self in H. simpl in H.
+    destruct (sc_created x <? sc_created a) eqn:E; simpl in H.
+    + apply N.ltb_lt in E. change (sel_self fixed (Some a) l = Some s) in H.
+      destruct (IH a s H) as [[Es M]|(l1 & l2 & El & Le & M1 & M2)].
+      * left. split; auto. intros y [Ey|Hy]; [subst; auto | auto].
+      * right. exists (x :: l1), l2. subst l. simpl. repeat split; auto.
+        intros y [Ey|Hy]; [subst; lia | auto].
+    + apply N.ltb_ge in E. change (sel_self fixed (Some x) l = Some s) in H.
+      destruct (IH x s H) as [[Es M]|(l1 & l2 & El & Le & M1 & M2)].
+      * subst s. right. exists [], l. simpl. repeat split; auto. intros y [].
+      * right. exists (x :: l1), l2. subst l. simpl. repeat split; auto; try lia.
+        intros y [Ey|Hy]; [subst; auto | auto].
+Qed.
+
+Theorem sel_self_latest : forall l s, sel_self fixed None l = Some s ->
+  exists l1 l2, l = l1 ++ s :: l2 /\
+    (forall x, In x l1 -> sc_created x <= sc_created s) /\ (forall x, In x l2 -> sc_created x < sc_created s).
+Proof.
+  intros l s H. destruct l as [|x l]; [discriminate|].
+  unfold sel_self in H. simpl in H. change (sel_self fixed (Some x) l = Some s) in H.
+  destruct (sel_self_spec l x s H) as [[Es M]|(l1 & l2 & El & Le & M1 & M2)].
+  - subst s. exists [], l. simpl. repeat split; auto. intros y [].
+  - exists (x :: l1), l2. subst l. simpl. repeat split; auto. intros y [Ey|Hy]; [subst; auto | auto].
+Qed.
+
+(* the code as found kept the last self-signature in the stream, whatever its date *)
+Lemma last_indep : forall {A} (l : list A) a b, l <> [] -> last l a = last l b.
+Proof.
+  induction l as [|x l IH]; intros a b H; [contradiction|].
+  destruct l as [|y l]; [reflexivity|]. change (last (y :: l) a = last (y :: l) b). apply IH. discriminate.
+Qed.
+Lemma sel_self_legacy_last : forall l a, sel_self legacy (Some a) l = Some (last l a).
+Proof.
+  induction l as [|x l IH]; intros a; [reflexivity|].
+  unfold sel_self. cbn [fold_left]. change (sel_self legacy (Some x) l = Some (last (x :: l) a)).
+  rewrite IH. destruct l as [|y l]; [reflexivity|]. f_equal.
+  change (last (y :: l) x = last (y :: l) a). apply last_indep. discriminate.
+Qed.
+
+(* the state machine really computes these folds over a run of verified signatures *)
+Section Runs.
+  Variable c : cfg.
+  Variable P : params.
+  Variable primary : pubkey.
+  Variable pid : N.
+
+  Fixpoint steps (st : est) (m : mode) (l : list sigp) : result (est * mode) :=
+    match l with
+    | [] => Ok (st, m)
+    | s :: r =>
+        match step c P primary pid st m (PSig s) with
+        | Ok (Cont st' m') => steps st' m' r
+        | Ok (Stop _) => Err "stop"
+        | Err e => Err e
+        | Panic x => Panic x
+        end
+    end.
+
+  Lemma binding_not_rev : (pgp_sigtype_subkey_binding =? pgp_sigtype_subkey_revocation) = false.
+  Proof. reflexivity. Qed.
+
+  Lemma steps_sub : forall sigs st k sg bd,
+    Forall (fun s => sc_type (s_core s) = pgp_sigtype_subkey_binding /\ verify_key_sig c P primary k s = Ok tt) sigs ->
+    steps st (MSub k sg bd) sigs = Ok (st, MSub k (sel_sub sg (map s_core sigs)) (sel_sub bd (map s_core sigs))).
+  Proof.
+    induction sigs as [|s r IH]; intros st k sg bd H; [reflexivity|].
+    inversion H as [|? ? [Ht Hv] Hr]; subst. cbn [steps]. rewrite step_sub_sig.
+    unfold binding_type. rewrite Ht, N.eqb_refl. simpl orb. simpl negb. cbv iota.
+    rewrite Hv. cbn [bind]. rewrite binding_not_rev.
+    destruct (should_replace sg (s_core s)) eqn:E1; destruct (should_replace bd (s_core s)) eqn:E2;
+      rewrite IH by assumption; unfold sel_sub; simpl; rewrite ?E1, ?E2; reflexivity.
+  Qed.
+
+  Lemma steps_uid : forall sigs st name self others,
+    Forall (fun s => is_self_cert pid (s_core s) = true /\ verify_uid_sig c P primary name (s_core s) = Ok tt) sigs ->
+    steps st (MUid name self others) sigs = Ok (st, MUid name (sel_self c self (map s_core sigs)) others).
+  Proof.
+    induction sigs as [|s r IH]; intros st name self others H; [reflexivity|].
+    inversion H as [|? ? [Hc Hv] Hr]; subst. cbn [steps]. rewrite step_uid_sig. rewrite Hc, Hv. cbn [bind].
+    rewrite IH by assumption. unfold sel_self. simpl. reflexivity.
+  Qed.
+
+  (* and a run of signature packets in the packet loop is exactly [steps] *)
+  Lemma step_sig_no_stop : forall st m s st', step c P primary pid st m (PSig s) <> Ok (Stop st').
+  Proof.
+    intros st m s st' H. destruct m as [|name self others|k sg bd].
+    - rewrite step_top in H. simpl in H. destruct (_ =? _); discriminate.
+    - rewrite step_uid_sig in H. destruct (is_self_cert pid (s_core s)); [|discriminate].
+      destruct (verify_uid_sig c P primary name (s_core s)); discriminate.
+    - rewrite step_sub_sig in H. destruct (negb _); [discriminate|].
+      destruct (verify_key_sig c P primary k s); try discriminate. cbn [bind] in H.
+      destruct (_ =? _); [discriminate|]. destruct (should_replace sg (s_core s)); discriminate.
+  Qed.
+
+  Lemma run_packets_steps : forall sigs st m st' m' rest,
+    steps st m sigs = Ok (st', m') ->
+    run_packets c P primary pid st m (sig_evs sigs ++ rest) = run_packets c P primary pid st' m' rest.
+  Proof.
+    induction sigs as [|s r IH]; intros st m st' m' rest H.
+    - inversion H; subst. reflexivity.
+    - cbn [steps] in H. simpl. destruct (step c P primary pid st m (PSig s)) as [[st1 m1|st1]|e|x]; try discriminate.
+      cbn [bind]. apply IH. exact H.
+  Qed.
+End Runs.
+
+(* F42: two self-signatures, the newer one first in the stream: the old code showed the superseded one *)
+Definition f42_new : sigcore := mksig 19 22 8 [] [0; 0] [] 1600000000 (Some 315360000) (Some 1) true 35.
+Definition f42_old : sigcore := mksig 19 22 8 [] [0; 0] [] 1500000000 (Some 86400) (Some 1) true 3.
+Lemma f42_legacy : sel_self legacy None [f42_new; f42_old] = Some f42_old.
+Proof. reflexivity. Qed.
+Lemma f42_fixed : sel_self fixed None [f42_new; f42_old] = Some f42_new.
+Proof. reflexivity. Qed.
